@@ -190,6 +190,12 @@ def _check_sspor(ctx, desc, out, idx, lean_reqs):
 
 
 def run(ctx: C.Ctx):
+    from .. import shapes_static, translate_ranking
+    shapes_static.run_with_translation(ctx, translate_ranking, "Ranking", "ranking-pipeline", lambda: _run(ctx),
+                                       "regenerated from SSPOR.fit / predict / get_selected_sensors: tail shuffle = tailShuffle σ m, reads = selectLead n_sensors")
+
+
+def _run(ctx: C.Ctx):
     rng = ctx.rng
     n_opt = ctx.scale(220, 4000)
     n_sspor = ctx.scale(120, 2000)
